@@ -147,9 +147,47 @@ func registerTime() {
 		x.block(g, wCond, "sleep")
 		return nil
 	})
+	// Ticker: a timer that re-arms itself every period (ticks are dropped when
+	// the channel still holds one, as in Go). More than 16 firings of one
+	// ticker on a path end the path as an exceeded unwind bound.
 	reg("time.NewTicker", func(x *Exec, g *G, a []Value) Value {
-		x.unsupported("time.NewTicker")
+		d := a[0].(*Term)
+		ch := mkTimeChan(x)
+		t := x.addTimer(d, ch, nil)
+		fires := 0
+		t.fn = func() {
+			fires++
+			if fires > 16 {
+				x.end("unwind", "ticker fired more than 16 times")
+			}
+			t.deadline = Add(t.deadline, d)
+			t.active = true
+		}
+		cell := new(Value)
+		*cell = StructV{ch, TFalse}
+		x.natTimers[cell] = t
+		return cell
+	})
+	reg("(*time.Ticker).Stop", func(x *Exec, g *G, a []Value) Value {
+		t := x.natTimers[a[0].(*Value)]
+		if t == nil {
+			x.unsupported("Stop on unknown ticker")
+		}
+		t.active = false
 		return nil
+	})
+	reg("github.com/gorilla/websocket.FormatCloseMessage", func(x *Exec, g *G, a []Value) Value {
+		code := a[0].(*Term)
+		text := a[1].(*Str)
+		if !code.IsConst() || !text.IsConc() {
+			x.unsupported("FormatCloseMessage with symbolic arguments")
+		}
+		bs := append([]byte{byte(code.U >> 8), byte(code.U)}, text.S...)
+		out := make([]Value, len(bs))
+		for i, b := range bs {
+			out[i] = MkBV(8, uint64(b))
+		}
+		return SliceV{A: out}
 	})
 }
 
